@@ -26,11 +26,30 @@ from .evidence import Reporter
 TASK = "a.1"
 
 
-def program(n_fail: int) -> dict:
+def program(n_fail: int, mode: str = "progress") -> dict:
+    if mode == "suspend":   # needs more distinct signals than the race can hand it: it suspends every time
+        return PR.P("suspendrace", [PR.S("a", tasks=[PR.T(TASK, "suspend", 6)])])
     return PR.P("prograce", [PR.S("a", tasks=[PR.T(TASK, "transient", n_fail)])])
 
 
-def cfg_module(writers: list[str], row: dict, max_tries: int) -> str:
+MODES = {
+    "progress": {"root": "MC_Progress", "cfg": "ProgressCfg",
+                 "invariants": ["ProgressWithRetry", "ProgressKept", "ProgressFinal", "NoLostUpdate", "NothingLeft", "NoStarvation"]},
+    "suspend": {"root": "MC_SuspendRace", "cfg": "SuspendRaceCfg",
+                "invariants": ["SignalsConserved", "NotSittingOnSignal", "ResumeOncePerSignal", "ResumedHasWork", "ConsumedInOrder",
+                               "NothingLeft", "NoStarvation"]},
+}
+
+
+def cfg_module(writers: list[str], row: dict, max_tries: int, mode: str = "progress", names: dict | None = None) -> str:
+    if mode == "suspend":
+        return "\n".join([
+            "---- MODULE SuspendRaceCfg ----", "EXTENDS TLC",
+            "Writers == {%s}" % ", ".join('"%s"' % w for w in writers),
+            "NameOf == (%s)" % " @@ ".join('"%s" :> "%s"' % (w, names[w]) for w in writers),
+            "InitRow == [ver |-> %d, status |-> \"%s\", buf |-> %s, sig |-> \"%s\"]" % (
+                row["ver"], row["status"], PR.tla_value(list(row["buf"])), row["sig"]),
+            "MaxTries == %d" % max_tries, "InnerRetries == 5", "===="]) + "\n"
     return "\n".join([
         "---- MODULE ProgressCfg ----", "EXTENDS TLC",
         "Writers == {%s}" % ", ".join('"%s"' % w for w in writers),
@@ -41,13 +60,13 @@ def cfg_module(writers: list[str], row: dict, max_tries: int) -> str:
 INVARIANTS = ["ProgressWithRetry", "ProgressKept", "ProgressFinal", "NoLostUpdate", "NothingLeft", "NoStarvation"]
 
 
-def explore(rd: str, cfgmod: str):
+def explore(rd: str, cfgmod: str, mode: str = "progress"):
     os.makedirs(rd, exist_ok=True)
-    with open(os.path.join(rd, "ProgressCfg.tla"), "w") as fh:
+    with open(os.path.join(rd, MODES[mode]["cfg"] + ".tla"), "w") as fh:
         fh.write(cfgmod)
-    cfg = "\n".join(["INIT InitP", "NEXT Next"] + ["INVARIANT " + i for i in INVARIANTS]
+    cfg = "\n".join(["INIT InitP", "NEXT Next"] + ["INVARIANT " + i for i in MODES[mode]["invariants"]]
                     + ["ACTION_CONSTRAINT Edge", "CHECK_DEADLOCK FALSE"]) + "\n"
-    r = tlc.run_tlc(rd, "MC_Progress", cfg, workers=1, extra=["-coverage", "1", "-continue"])
+    r = tlc.run_tlc(rd, MODES[mode]["root"], cfg, workers=1, extra=["-coverage", "1", "-continue"])
     edges: dict[str, list[str]] = {}
     init = None
     for m in re.finditer(r'<<\s*"(EDGE|INIT)",\s*"((?:[^"\\]|\\.)*)"(?:,\s*"((?:[^"\\]|\\.)*)")?\s*>>', r.out, re.S):
@@ -69,6 +88,9 @@ def wmover(a: dict, b: dict) -> str:
 
 
 def model_view(s: dict) -> dict:
+    if "runtasks" in s:     # SuspendRace
+        return {"row": {"ver": s["row"]["ver"], "status": s["row"]["status"], "buf": list(s["row"]["buf"]), "sig": s["row"]["sig"]},
+                "retry": s["runtasks"], "done": sorted(s["done"]), "inq": sorted(s["inq"])}
     return {"row": {k: s["row"][k] for k in ("ver", "prog", "buf")}, "retry": s["retry"],
             "done": sorted(s["done"]), "inq": sorted(s["inq"])}
 
@@ -96,14 +118,32 @@ def paths_of(edges: dict, init: str, limit: int, rng: random.Random) -> list[lis
 
 
 # ----- preparation: drive the real engine until RunTask(a.1) is the only pending message, then send the signals --------
-def prepare(attempt: int, nwriters: int, basedir: str) -> tuple[str, dict]:
+def prepare(attempt: int, nwriters: int, basedir: str, mode: str = "progress") -> tuple[str, dict]:
+    """progress: `attempt` = failed attempts already behind the racing RunTask; suspend: `attempt` = persistent signals
+    already buffered in the stage when the race starts."""
     from .driver import Run
 
-    prog = program(attempt + 2)
-    run = Run(prog, "prograce-prep", keep=True)
+    prog = program(attempt + 2, mode)
+    run = Run(prog, mode + "race-prep", keep=True)
     run.start()
+    if mode == "suspend":
+        for _ in range(200):
+            rows = run.rows()
+            if len(rows) == 1 and rows[0]["typ"] == "RunTask":
+                break
+            todo = [r for r in rows if not r["locked"] and not r["delayed"]]
+            if not todo:
+                break
+            run.deliver(todo[0]["qid"])
+        for _ in range(attempt):         # signals that arrive while the stage is RUNNING: buffered before the race
+            run.send_signal("a", True)
+            sg = [r for r in run.rows() if r["typ"] == "SignalStage"]
+            run.deliver(sg[0]["qid"])
+        attempt_done = True
+    else:
+        attempt_done = False
     seen_runtask = 0
-    for _ in range(200):
+    for _ in range(0 if attempt_done else 200):
         rows = run.rows()
         rt = [r for r in rows if r["typ"] == "RunTask"]
         if rt and len(rows) == 1:
@@ -127,7 +167,7 @@ def prepare(attempt: int, nwriters: int, basedir: str) -> tuple[str, dict]:
         run.send_signal("a", True)
     rows = run.rows()
     state = run.proj.state()
-    db = os.path.join(basedir, f"prograce_{attempt}_{nwriters}.db")
+    db = os.path.join(basedir, f"{mode}race_{attempt}_{nwriters}.db")
     run.raw.close()
     run.raw = None
     Hooks.on_commit = Hooks.on_execute = None
@@ -137,9 +177,19 @@ def prepare(attempt: int, nwriters: int, basedir: str) -> tuple[str, dict]:
     return db, {"rows": rows, "state": state, "prog": prog}
 
 
-def project(raw, msg_of: dict[str, int]) -> dict:
-    r = raw.execute("SELECT version, context FROM stage_executions WHERE ref_id = 'a'").fetchone()
+def project(raw, msg_of: dict[str, int], mode: str = "progress") -> dict:
+    r = raw.execute("SELECT version, status, context FROM stage_executions WHERE ref_id = 'a'").fetchone()
     ctx = json.loads(r["context"] or "{}")
+    if mode == "suspend":
+        qids = {x["id"] for x in raw.execute("SELECT id FROM queue_messages")}
+        done = {int(x["message_id"]) for x in raw.execute("SELECT message_id FROM processed_messages")}
+        more = len([1 for x in raw.execute("SELECT id, message_type FROM queue_messages")
+                    if x["message_type"] == "RunTask" and x["id"] not in msg_of.values()])
+        return {"row": {"ver": r["version"], "status": r["status"],
+                        "buf": [str(b.get("signal_name", "")) for b in (ctx.get("_buffered_signals", []) or [])],
+                        "sig": str(ctx.get("_signal_name") or "")},
+                "retry": more, "done": sorted(w for w, q in msg_of.items() if q in done),
+                "inq": sorted(w for w, q in msg_of.items() if q in qids)}
     qids = {x["id"] for x in raw.execute("SELECT id FROM queue_messages")}
     done = {int(x["message_id"]) for x in raw.execute("SELECT message_id FROM processed_messages")}
     retry = len([1 for x in raw.execute("SELECT id, message_type FROM queue_messages")
@@ -150,7 +200,7 @@ def project(raw, msg_of: dict[str, int]) -> dict:
 
 
 def replay_path(prog: dict, basedb: str, rows: list[dict], writers: list[str], path: list[str],
-                random_seed: int | None = None, terminal: list[dict] | None = None) -> dict | None:
+                random_seed: int | None = None, terminal: list[dict] | None = None, mode: str = "progress") -> dict | None:
     from stabilize import QueueProcessor, SqliteQueue, SqliteWorkflowStore, TaskRegistry
     from stabilize.queue.processor.config import QueueProcessorConfig
     from .vtask import VerifTask, LEDGER
@@ -227,7 +277,7 @@ def replay_path(prog: dict, basedb: str, rows: list[dict], writers: list[str], p
                 baton.step(wid[w])
             for t in threads:
                 t.join(5)
-            got = project(raw, msg_of)
+            got = project(raw, msg_of, mode)
             errs = {w: repr(e) for w, e in baton.errors.items()}
             if got not in terminal or errs:
                 return {"step": -1, "worker": "", "model_pc": "end", "thread": "finished", "want": {"any of": terminal},
@@ -237,7 +287,7 @@ def replay_path(prog: dict, basedb: str, rows: list[dict], writers: list[str], p
             w = wmover(states[i - 1], states[i])
             res = baton.step(wid[w])
             want = model_view(states[i])
-            got = project(raw, msg_of)
+            got = project(raw, msg_of, mode)
             ok = got == want
             endpc = states[i]["wk"][w]["pc"]
             if ok and ((endpc == "end") != (res == "finished")):
@@ -270,53 +320,68 @@ def replay_path(prog: dict, basedb: str, rows: list[dict], writers: list[str], p
 
 def _job(args):
     prog, basedb, rows, writers, paths, seeds, terminal, init = args[:8]
+    mode = args[9] if len(args) > 9 else "progress"
     bad = []
     for p in paths:
-        r = replay_path(prog, basedb, rows, writers, p)
+        r = replay_path(prog, basedb, rows, writers, p, mode=mode)
         if r is not None:
             bad.append(r)
     for sd in seeds:
-        r = replay_path(prog, basedb, rows, writers, [init], random_seed=sd, terminal=terminal)
+        r = replay_path(prog, basedb, rows, writers, [init], random_seed=sd, terminal=terminal, mode=mode)
         if r is not None:
             bad.append(r)
     return len(paths) + len(seeds), bad
 
 
-def component(rep: Reporter, tier: str, seed: int) -> dict:
+def row_of(prep: dict, mode: str) -> dict:
+    st = prep["state"]["st"]["a"]
+    if mode == "suspend":
+        return {"ver": st["ver"], "status": st["status"], "buf": list(st["buf"]), "sig": st["sig"]}
+    return {"ver": st["ver"], "prog": prep["state"]["tk"][TASK]["prog"], "buf": len(st["buf"])}
+
+
+def names_of(writers: list[str], attempt: int) -> dict:
+    """the driver names the k-th signal it sends str(k); `attempt` signals were sent (and buffered) before the race"""
+    return {w: str(attempt + i + 1) for i, w in enumerate(writers)}
+
+
+def component(rep: Reporter, tier: str, seed: int, mode: str = "progress") -> dict:
     import concurrent.futures as cf
     import multiprocessing as mp
 
     quick = tier != "thorough"
     rng = random.Random(seed)
     base = core.scratch_dir("progbase")
-    # (attempt the racing RunTask is, number of concurrent writers)
+    spec = "Progress.tla" if mode == "progress" else "SuspendRace.tla"
+    # progress: (attempt the racing RunTask is, number of concurrent writers)
+    # suspend:  (signals already buffered when the race starts, number of concurrent signal handlers)
     configs = [(0, 1), (1, 1), (0, 2)] + ([] if quick else [(1, 2), (2, 1), (0, 3)])
     states = transitions = replayed = 0
     info, samples, jobs = [], [], []
     try:
         for (attempt, nw) in configs:
             writers = [f"s{i + 1}" for i in range(nw)]
-            db, prep = prepare(attempt, nw, base)
+            db, prep = prepare(attempt, nw, base, mode)
             rows = prep["rows"]
             if len([r for r in rows if r["typ"] == "RunTask"]) != 1 or len([r for r in rows if r["typ"] == "SignalStage"]) != nw:
-                rep.machinery_failure(f"progress race ({attempt},{nw}): unexpected pending messages {[(r['typ']) for r in rows]}")
+                rep.machinery_failure(f"{mode} race ({attempt},{nw}): unexpected pending messages {[(r['typ']) for r in rows]}")
                 continue
-            st = prep["state"]["st"]["a"]
-            row = {"ver": st["ver"], "prog": prep["state"]["tk"][TASK]["prog"], "buf": len(st["buf"])}
-            if row["prog"] != attempt:
-                rep.machinery_failure(f"progress race ({attempt},{nw}): saved progress {row['prog']} after {attempt} failed attempts")
+            row = row_of(prep, mode)
+            if (row["prog"] if mode == "progress" else len(row["buf"])) != attempt:
+                rep.machinery_failure(f"{mode} race ({attempt},{nw}): preparation left {row}")
                 continue
             rd = os.path.join(base, f"tlc_{attempt}_{nw}")
-            edges, init, r = explore(rd, cfg_module(writers, row, nw + 1))
+            edges, init, r = explore(rd, cfg_module(writers, row, nw + 1, mode, names_of(writers, attempt)), mode)
             states += r.distinct
             transitions += r.generated
             if r.violated:
                 for fm in sorted(set(r.violated)):
-                    rep.violation(f"Progress.tla ({attempt},{nw}): {fm} is false in the specification",
+                    rep.violation(f"{spec} ({attempt},{nw}): {fm} is false in the specification",
                                   {"formula": fm, "state": None, "program": prep["prog"], "source": "progress-model"},
-                                  {"kind": "progress-model", "program": prep["prog"], "formula": fm, "config": [attempt, nw]})
+                                  {"kind": "progress-model", "program": prep["prog"], "formula": fm, "config": [attempt, nw],
+                                   "mode": mode})
             if not r.ok and not r.violated:
-                rep.machinery_failure(f"TLC on Progress.tla ({attempt},{nw}): " + r.out[-1500:])
+                rep.machinery_failure(f"TLC on {spec} ({attempt},{nw}): " + r.out[-1500:])
                 continue
             paths = paths_of(edges, init, 400 if quick else 5000, rng)
             term_states = {s for ts in edges.values() for s in ts} | set(edges.keys())
@@ -334,22 +399,22 @@ def component(rep: Reporter, tier: str, seed: int) -> dict:
                 samples.append({"config": [attempt, nw], "schedule": [wmover(ps[i - 1], ps[i]) for i in range(1, len(ps))]})
             n = 10
             for i in range(0, len(paths), n):
-                jobs.append((prep["prog"], db, rows, writers, paths[i:i + n], [], terminal, init, attempt))
+                jobs.append((prep["prog"], db, rows, writers, paths[i:i + n], [], terminal, init, attempt, mode))
             nrand = 60 if quick else 1000
             seeds = [rng.randrange(1 << 30) for _ in range(nrand)]
             for i in range(0, len(seeds), 10):
-                jobs.append((prep["prog"], db, rows, writers, [], seeds[i:i + 10], terminal, init, attempt))
+                jobs.append((prep["prog"], db, rows, writers, [], seeds[i:i + 10], terminal, init, attempt, mode))
             info[-1]["statement_level_random_schedules"] = nrand
         with cf.ProcessPoolExecutor(max_workers=int(os.environ.get("VERIF_NPROC", "16")), mp_context=mp.get_context("spawn")) as ex:
             for (cnt, bad), job in zip(ex.map(_job, jobs), jobs):
                 replayed += cnt
                 for b in bad[:3]:
-                    rep.violation(f"progress race, writers {job[3]}, schedule {b['schedule'][:40]}: after step {b['step']} "
-                                  f"(worker {b['worker']} -> {b['model_pc']}) the real engine's state differs from Progress.tla: "
+                    rep.violation(f"{mode} race, writers {job[3]}, schedule {b['schedule'][:40]}: after step {b['step']} "
+                                  f"(worker {b['worker']} -> {b['model_pc']}) the real engine's state differs from {spec}: "
                                   f"want {json.dumps(b['want'])[:300]} got {json.dumps(b['got'])[:300]} {b['error']}",
                                   {"formula": "CONFORMANCE", "state": None, "program": job[0], "source": "progress-race"},
                                   {"kind": "progress-race", "program": job[0], "writers": job[3], "schedule": b["schedule"],
-                                   "config": [job[8], len(job[3])], "seed": b.get("seed"), "mismatch": b})
+                                   "config": [job[8], len(job[3])], "seed": b.get("seed"), "mismatch": b, "mode": mode})
     finally:
         shutil.rmtree(base, ignore_errors=True)
     return {"states": states, "transitions": transitions, "replayed": replayed, "configs": info, "samples": samples}
@@ -358,13 +423,13 @@ def component(rep: Reporter, tier: str, seed: int) -> dict:
 def replay_doc(pid: str, doc: dict, path: str) -> int:
     """./check C14 --replay <file> for a progress-race record: the same schedule on the current tree."""
     attempt, nw = doc["config"]
+    mode = doc.get("mode", "progress")
     writers = [f"s{i + 1}" for i in range(nw)]
     base = core.scratch_dir("progreplay")
     try:
-        db, prep = prepare(attempt, nw, base)
-        st = prep["state"]["st"]["a"]
-        row = {"ver": st["ver"], "prog": prep["state"]["tk"][TASK]["prog"], "buf": len(st["buf"])}
-        edges, init, r = explore(os.path.join(base, "tlc"), cfg_module(writers, row, nw + 1))
+        db, prep = prepare(attempt, nw, base, mode)
+        row = row_of(prep, mode)
+        edges, init, r = explore(os.path.join(base, "tlc"), cfg_module(writers, row, nw + 1, mode, names_of(writers, attempt)), mode)
         if doc.get("kind") == "progress-model":
             bad = doc["formula"] in set(r.violated)
             print("Progress.tla", doc["config"], doc["formula"], "false" if bad else "holds")
@@ -375,7 +440,7 @@ def replay_doc(pid: str, doc: dict, path: str) -> int:
                     v = model_view(json.loads(s))
                     if v not in terminal:
                         terminal.append(v)
-            res = replay_path(prep["prog"], db, prep["rows"], writers, [init], random_seed=doc["seed"], terminal=terminal)
+            res = replay_path(prep["prog"], db, prep["rows"], writers, [init], random_seed=doc["seed"], terminal=terminal, mode=mode)
             bad = res is not None
             print("statement-level schedule, seed", doc["seed"], "->", "final state is not a terminal state of Progress.tla: "
                   + json.dumps(res["got"]) + " " + res["error"] if bad else "ends in a terminal state of the specification")
@@ -386,7 +451,7 @@ def replay_doc(pid: str, doc: dict, path: str) -> int:
                 ps = [json.loads(s) for s in p]
                 sch = [wmover(ps[i - 1], ps[i]) for i in range(1, len(ps))]
                 if sch[:len(want)] == want[:len(sch)]:
-                    res = replay_path(prep["prog"], db, prep["rows"], writers, p)
+                    res = replay_path(prep["prog"], db, prep["rows"], writers, p, mode=mode)
                     bad = res is not None
                     print("schedule", sch, "->", f"differs from Progress.tla after step {res['step']}: want {res['want']} got {res['got']} {res['error']}"
                           if bad else "the real handlers follow Progress.tla")
